@@ -45,7 +45,7 @@ def cases(tier, seed):
                     continue
                 for li, link in enumerate(links):
                     for mi, mode in enumerate(modes):
-                        if q and ((li + mi + m) % 2 or (m == 5 and mode != 'linear')):
+                        if q and (((li + mi + m) % 2 and not (m == 5 and mode == 'hull')) or (m == 5 and mode == 'left')):
                             continue
                         out.append(dict(fn='stages', n=n, xs=xs, reduced=red, knees=knees, linkage=link, mode=mode))
     return out
